@@ -216,6 +216,42 @@ var simHooksOnce sync.Once
 func simInstallHooks() {
 	simHooksOnce.Do(func() {
 		log.VerifGuardClosedReads()
+		log.VerifSetPointHook(func(name, dir string) {
+			if !simVirtualTime {
+				return
+			}
+			simRegMu.RLock()
+			var owner *simNode
+			cands := map[*simNode]bool{}
+			for _, n := range simReg {
+				if !n.up {
+					continue
+				}
+				if dir != "" {
+					if filepath.Join(n.dir, "log") == dir {
+						owner = n
+						break
+					}
+					continue
+				}
+				// no directory known (segment creation): the one node whose raft loop is running this step
+				n.w.mu.Lock()
+				running := n.loopGate.running
+				n.w.mu.Unlock()
+				if running {
+					cands[n] = true
+				}
+			}
+			simRegMu.RUnlock()
+			if owner == nil && len(cands) == 1 {
+				for n := range cands {
+					owner = n
+				}
+			}
+			if owner != nil {
+				owner.onPoint(name)
+			}
+		})
 		verifHooks.idle = func(r *Raft) {
 			if n := simLookup(r); n != nil {
 				n.loopGate.park(n)
